@@ -1,7 +1,7 @@
 import collections
 
 from .base_array import base_array
-from .composite import codec_kind, distance_to_next_multiply, struct_packed
+from .composite import codec_kind, distance_to_next_multiply, field_alignment, field_size, struct_packed
 from .descriptor import DescriptorField
 from .exception import ProphyError
 from .scalar import u32
@@ -201,25 +201,25 @@ class struct_generator(_composite_generator_base):
         cls._DYNAMIC = any(type_._DYNAMIC for type_ in cls._types())
         cls._OPTIONAL = False
         cls._PARTIAL_ALIGNMENT = None
-        cls._SIZE = sum((type_._OPTIONAL_SIZE if type_._OPTIONAL else type_._SIZE) for type_ in cls._types())
+        cls._SIZE = sum(field_size(type_) for type_ in cls._types())
         cls._UNLIMITED = any(type_._UNLIMITED for type_ in cls._types())
         if not cls._descriptor:
             cls._ALIGNMENT = 1
         else:
-            cls._ALIGNMENT = max((t._OPTIONAL_ALIGNMENT if t._OPTIONAL else t._ALIGNMENT) for t in cls._types())
+            cls._ALIGNMENT = max(field_alignment(t) for t in cls._types())
 
         alignment = 1
         for type_ in reversed(list(cls._types())):
             if issubclass(type_, (base_array, bytes)) and type_._DYNAMIC:
                 type_._PARTIAL_ALIGNMENT = alignment
                 alignment = 1
-            alignment = max(type_._ALIGNMENT, alignment)
+            alignment = max(field_alignment(type_), alignment)
         if not issubclass(cls, struct_packed) and cls._descriptor:
 
             def get_padded_sizes():
                 types = list(cls._types())
-                sizes = [tp._SIZE for tp in types]
-                alignments = [tp._ALIGNMENT for tp in types[1:]] + [cls._ALIGNMENT]
+                sizes = [field_size(tp) for tp in types]
+                alignments = [field_alignment(tp) for tp in types[1:]] + [cls._ALIGNMENT]
                 offset = 0
 
                 for size, alignment in zip(sizes, alignments):
